@@ -13,6 +13,7 @@ Conventions
 * Places where the C++ would index out of bounds / dereference null return `none`
   (the property theorems show these are unreachable from states satisfying the invariant).
 -/
+import TlxVerif.Gen.C01Consts
 namespace TlxVerif.C01
 
 /-- template parameters of `BTree` that matter for behaviour -/
@@ -25,8 +26,9 @@ structure Params (K : Type) where
 
 namespace Params
 variable {K : Type} (p : Params K)
-def leafMin : Nat := p.leafMax / 2
-def innerMin : Nat := p.innerMax / 2
+/-- `leaf_slotmin` / `inner_slotmin`: the formulas extracted from btree.hpp (Gen/C01Consts.lean) -/
+def leafMin : Nat := Gen.leafSlotmin p.leafMax
+def innerMin : Nat := Gen.innerSlotmin p.innerMax
 /-- key_lessequal(a,b) = !key_less(b,a) -/
 def le (a b : K) : Bool := !p.lt b a
 /-- key_equal(a,b) -/
